@@ -379,6 +379,18 @@ def gen_spec_c18cli(seed, run, tier):
             cmd = {"files": cmd["files"], "groups": groups}
         cmds.append(plain(cmd))
     cases = [{"kind": "cmd", "argv": a} for a in cmds]
+    configs = {}
+    if rng.random() < 0.3:
+        # a command whose last input file and some options come from a --config file, issued twice
+        cmd = gen_command(rng, world, allow_f=False)
+        if len(cmd["files"]) >= 1 and cmd["groups"]:
+            k = rng.randint(1, len(cmd["groups"]))
+            toks = [t for g in cmd["groups"][:k] for t in g] + cmd["files"][-1:]
+            configs["sess.cfg"] = " ".join(toks) + "\n"
+            argv = cmd["files"][:-1] + [t for g in cmd["groups"][k:] for t in g] + ["--config", "sess.cfg"]
+            pos = rng.randint(0, len(cases))
+            cases.insert(pos, {"kind": "cmd", "argv": argv})
+            cases.append({"kind": "cmd", "argv": list(argv)})
     if rng.random() < 0.5:
         # A ; A + one more option ; A   (an option of one command must not stick to the next)
         cmd = gen_command(rng, world, allow_f=False)
@@ -396,6 +408,21 @@ def gen_spec_c18cli(seed, run, tier):
             b = a + extra
             pos = rng.randint(0, len(cases))
             cases[pos:pos] = [{"kind": "cmd", "argv": a}, {"kind": "cmd", "argv": b}, {"kind": "cmd", "argv": list(a)}]
+    if rng.random() < 0.12:
+        # A ; some diagram drawn into a file ; A   (a plot must not leave process-wide settings behind that
+        # change the labels or numbers of a later table)
+        files = [p["name"] for p in world["inputs"]]
+        a = files + ["-m", rng.choice(["mae", "obs", "fcst", "bias"]), "-x", rng.choice(["time", "day", "week", "month", "year", "leadtime"]),
+                     "-type", rng.choice(["csv", "text"])]
+        diagram = files[:rng.randint(1, len(files))] + ["-m", rng.choice(["meteo", "obsfcst", "qq", "scatter", "timeseries", "error", "freq",
+                                                                        "cond", "change", "taylor", "pithist", "reliability"]),
+                                                       "-f", "out.png"]
+        if rng.random() < 0.5:
+            diagram += ["-d", "%d" % W._date_of(rng.choice(world["universe"]["times"]))]
+        if rng.random() < 0.3:
+            diagram += ["-l", W._fmt_num(rng.choice(world["universe"]["locations"])["id"])]
+        pos = rng.randint(0, len(cases))
+        cases[pos:pos] = [{"kind": "cmd", "argv": a}, {"kind": "cmd", "argv": diagram}, {"kind": "cmd", "argv": list(a)}]
     # repeats: the same argv issued again later in the session
     for _ in range(rng.randint(1, 3)):
         src = rng.randrange(len(cmds))
@@ -430,6 +457,6 @@ def gen_spec_c18cli(seed, run, tier):
         files = [p["name"] for p in world["inputs"]]
         out.insert(0, {"kind": "cmd", "argv": files + ["-m", "obs", "-x", "location", "-type", "csv"]})
         out.insert(1, {"kind": "cmd", "argv": files + ["--list-locations"]})
-    return {"prop": "C18", "engine": "B", "seed": seed, "run": run, "tier": tier, "world": world, "cases": out,
-            "pinned": mrng.random() < 0.8, "pin_seed": 777,
+    return {"prop": "C18", "engine": "B", "seed": seed, "run": run, "tier": tier, "world": world, "cases": out, "session_configs": configs,
+            "pinned": mrng.random() < 0.8, "pin_seed": 777, "reuse_argv": mrng.random() < 0.4,
             "fresh": no_id or mrng.random() < (0.03 if tier == "quick" else 0.06)}
